@@ -1291,6 +1291,9 @@ def _check_interp_rows(fn: ast.FunctionDef):
     ps = [a.arg for a in fn.args.args]
     if len(ps) != 3:
         raise AnalysisError(f"interp_rows helper has parameters {ps} (unrecognised form)")
+    if not any(isinstance(n, (ast.For, ast.While, ast.ListComp, ast.GeneratorExp)) for n in ast.walk(fn)):
+        # no iteration over the columns: ONE vectorised bracket interpolation of whole rows
+        return _check_vectorised_rows(fn, ps)
     k, it, elt = _rows_iteration(fn)
     if not (isinstance(elt, ast.Call) and call_name(elt) == "interp" and len(elt.args) + len(elt.keywords) == 3
             and all(kw.arg in ("x", "xp", "fp") for kw in elt.keywords)):
@@ -1318,6 +1321,157 @@ def _check_interp_rows(fn: ast.FunctionDef):
                        f"range(len({arr}[0]))", f"range(len({arr}.T))"):
             why.append(f"the iteration runs over `{its}`, not over the columns range({arr}.shape[1])")
     return (not why), "; ".join(why)
+
+
+def _check_vectorised_rows(fn: ast.FunctionDef, ps):
+    """interp_rows written as one bracket interpolation of whole rows: straight-line assignments and a return whose value is
+    Y[i] + w * (Y[j] - Y[i]) in any algebraically equal spelling.  Decided (sympy on the inlined return expression):
+    * j is i + 1 (or min(i + 1, n - 1)) and the bracket index is clipped so that both rows exist;
+    * CLAMP: the weight is clipped to [0, 1], or the query / position is clipped to the grid before the weight is formed -
+      otherwise queries outside the grid are extrapolated (the interp helpers and numpy.interp clamp);
+    * searchsorted form: w = (q - X[i]) / (X[i + 1] - X[i]);
+    * uniform-grid form: position = (q - X[0]) * (n - 1) / (X[-1] - X[0]) with n the number of rows (n samples span n - 1
+      intervals), i = floor(position), w = position - i.
+    Returns (verdict, why); AnalysisError for anything else."""
+    import sympy as sp
+    from engine.symx import to_sympy
+    q, X, Y = ps
+    body = [st for st in fn.body if not (isinstance(st, ast.Expr) and isinstance(st.value, ast.Constant))]
+    if not body or not isinstance(body[-1], ast.Return) or body[-1].value is None:
+        raise AnalysisError("interp_rows helper does not end in a `return` (unrecognised form)")
+    env: Dict[str, sp.Expr] = {}
+    n_rows, n_cols = sp.Symbol("n", positive=True, integer=True), sp.Symbol("ncols", positive=True, integer=True)
+    Yrow, Xat = sp.Function("Yrow"), sp.Function("Xat")
+    fclip, ffloor, fmin, fmax, fss = sp.Function("clip"), sp.Function("floor_"), sp.Function("minimum"), sp.Function("maximum"), sp.Function("ss")
+
+    def conv(e):
+        def leaf(n):
+            if isinstance(n, ast.Name) and n.id in env:
+                return env[n.id]
+            if isinstance(n, ast.Call) and isinstance(n.func, ast.Attribute) and n.func.attr == "astype" and len(n.args) == 1:
+                return ffloor(conv(n.func.value)) if not _is_floor(n.func.value) else conv(n.func.value)
+            if isinstance(n, ast.Call):
+                nm = call_name(n)
+                args = [a for a in n.args]
+                if nm == "len" and len(args) == 1 and isinstance(args[0], ast.Name) and args[0].id in (X, Y):
+                    return n_rows
+                if nm in ("clip", "clamp") and len(args) == 3 and not n.keywords:
+                    return fclip(conv(args[0]), conv(args[1]), conv(args[2]))
+                if nm in ("clip", "clamp") and len(args) == 1 and {k.arg for k in n.keywords} <= {"min", "max", "a_min", "a_max"} \
+                        and len(n.keywords) == 2:
+                    kw = {k.arg.replace("a_", ""): k.value for k in n.keywords}
+                    return fclip(conv(args[0]), conv(kw["min"]), conv(kw["max"]))
+                if nm in ("floor", "int", "trunc") and len(args) == 1:
+                    return ffloor(conv(args[0]))
+                if nm in ("minimum", "min") and len(args) == 2:
+                    return fmin(conv(args[0]), conv(args[1]))
+                if nm in ("maximum", "max") and len(args) == 2:
+                    return fmax(conv(args[0]), conv(args[1]))
+                if nm == "searchsorted" and len(args) == 2 and isinstance(args[0], ast.Name) and args[0].id == X \
+                        and all(k.arg in ("side", "right") for k in n.keywords):
+                    return fss(conv(args[1]))
+                raise AnalysisError(f"interp_rows helper calls `{ast.unparse(n)[:60]}` (unrecognised form)")
+            if isinstance(n, ast.Subscript):
+                if isinstance(n.value, ast.Attribute) and n.value.attr == "shape" and isinstance(n.value.value, ast.Name) \
+                        and n.value.value.id in (X, Y) and isinstance(n.slice, (ast.Constant, ast.UnaryOp)):
+                    which = ast.unparse(n.slice)
+                    if which == "0":
+                        return n_rows
+                    if n.value.value.id == Y and which in ("1", "-1"):
+                        return n_cols
+                if isinstance(n.value, ast.Name) and n.value.id in (X, Y) and not isinstance(n.slice, (ast.Slice, ast.Tuple)):
+                    idx = n.slice
+                    if isinstance(idx, ast.UnaryOp) and isinstance(idx.op, ast.USub) and isinstance(idx.operand, ast.Constant) \
+                            and isinstance(idx.operand.value, int):
+                        i = n_rows - idx.operand.value
+                    else:
+                        i = conv(idx)
+                    return (Yrow if n.value.id == Y else Xat)(i)
+                raise AnalysisError(f"interp_rows helper indexes `{ast.unparse(n)[:60]}` (unrecognised form)")
+            return None
+        return to_sympy(e, leaf=leaf)
+
+    def _is_floor(e):
+        return isinstance(e, ast.Call) and call_name(e) in ("floor", "trunc")
+    for st in body[:-1]:
+        if not (isinstance(st, ast.Assign) and len(st.targets) == 1 and isinstance(st.targets[0], ast.Name)) \
+                or st.targets[0].id in ps or st.targets[0].id in env:
+            raise AnalysisError(f"interp_rows helper contains `{ast.unparse(st).splitlines()[0][:70]}` (unrecognised form)")
+        env[st.targets[0].id] = conv(st.value)
+    E = conv(body[-1].value)
+    rows = sorted({a.args[0] for a in E.atoms(sp.Function) if a.func == Yrow}, key=str)
+    if len(rows) != 2:
+        raise AnalysisError(f"interp_rows helper combines {len(rows)} rows of the array, expected the two bracketing rows (unrecognised form)")
+    A, B = sp.Symbol("A_"), sp.Symbol("B_")
+    a, b = rows
+    lin = sp.expand(E.subs({Yrow(a): A, Yrow(b): B}))
+    cA, cB = sp.diff(lin, A), sp.diff(lin, B)
+    if cA.has(A, B) or cB.has(A, B) or sp.simplify(lin - cA * A - cB * B) != 0:
+        raise AnalysisError("interp_rows helper is not a linear combination of two rows (unrecognised form)")
+
+    def upper_of(lo, hi):
+        return hi == lo + 1 or hi == fmin(lo + 1, n_rows - 1) or hi == fmin(n_rows - 1, lo + 1) or hi == fclip(lo + 1, 0, n_rows - 1)
+    if upper_of(a, b):
+        lo, hi, w = a, b, cB
+    elif upper_of(b, a):
+        lo, hi, w = b, a, cA
+    else:
+        raise AnalysisError(f"interp_rows helper: rows `{a}` and `{b}` are not a row and its successor (unrecognised form)")
+    if sp.simplify(cA + cB - 1) != 0:
+        return False, (f"the weights of the two bracketing rows add up to `{sp.simplify(cA + cB)}`, not to 1: the result is not an "
+                       f"interpolation between the samples")
+    grid_lo, grid_hi = Xat(0), Xat(n_rows - 1)
+
+    def clipped_query(e):
+        return e == fclip(sp.Symbol(q), grid_lo, grid_hi) or e == fmin(fmax(sp.Symbol(q), grid_lo), grid_hi) \
+            or e == fmax(fmin(sp.Symbol(q), grid_hi), grid_lo)
+    qs = sp.Symbol(q)
+    # ---- searchsorted form
+    if lo.func == fclip and len(lo.args) == 3 and lo.args[1] == 0 and lo.args[2] == n_rows - 2 and lo.args[0].has(fss):
+        s_ = lo.args[0]
+        ss_atoms = [x for x in s_.atoms(sp.Function) if x.func == fss]
+        if len(ss_atoms) != 1 or sp.simplify(s_ - (ss_atoms[0] - 1)) != 0:
+            raise AnalysisError(f"interp_rows helper: bracket index `{lo}` is not searchsorted(grid, t) - 1 (unrecognised form)")
+        qq = ss_atoms[0].args[0]
+        if not (qq == qs or clipped_query(qq)):
+            raise AnalysisError(f"interp_rows helper searches the grid for `{qq}`, not for the query time (unrecognised form)")
+        for cand_q in (qs, fclip(qs, grid_lo, grid_hi)):
+            r = (cand_q - Xat(lo)) / (Xat(lo + 1) - Xat(lo))
+            if sp.simplify(w - fclip(r, 0, 1)) == 0:
+                return True, ""
+            if sp.simplify(w - r) == 0:
+                if cand_q != qs:
+                    return True, ""          # the weight is formed from a query that was clipped to the grid
+                return False, (f"the weight `{str(sp.factor(w))[:90]}` of the upper row is neither clipped to [0, 1] nor formed from a query that was clipped "
+                               f"to the grid: for t before the first / after the last grid point the result is EXTRAPOLATED along the "
+                               f"first / last interval, while interp (and numpy.interp / jax.numpy.interp) hold the boundary sample - "
+                               f"the backends disagree outside the grid")
+        raise AnalysisError(f"interp_rows helper: weight `{w}` is not (t - X[i]) / (X[i+1] - X[i]) (unrecognised form)")
+    # ---- uniform-grid form
+    pos = None
+    if lo.func == ffloor and len(lo.args) == 1:
+        pos = lo.args[0]
+    if pos is not None:
+        if sp.simplify(w - (pos - lo)) != 0:
+            raise AnalysisError(f"interp_rows helper: weight `{w}` is not position - floor(position) (unrecognised form)")
+        if pos.func == fclip and len(pos.args) == 3 and pos.args[1] == 0 and pos.args[2] == n_rows - 1:
+            p_ = pos.args[0]
+            clamped = True
+        else:
+            p_, clamped = pos, False
+        span = grid_hi - grid_lo
+        if sp.simplify(p_ - (qs - grid_lo) * (n_rows - 1) / span) == 0:
+            if clamped:
+                return True, ""
+            return False, ("the fractional position is not clipped to [0, n - 1] before the bracket index and the weight are formed: "
+                           "queries outside the grid index rows that do not exist / are extrapolated")
+        for wrong, what in ((n_rows, "n"), (n_rows + 1, "n + 1"), (n_cols, "the number of COLUMNS"), (n_cols - 1, "the number of columns - 1")):
+            if sp.simplify(p_ - (qs - grid_lo) * wrong / span) == 0:
+                return False, (f"the fractional position scales (t - X[0]) / (X[-1] - X[0]) by {what} instead of n - 1: n samples span "
+                               f"n - 1 intervals, so sample k would be placed at k * T / {what} and the input is compressed in time")
+        raise AnalysisError(f"interp_rows helper: position `{p_}` is not (t - X[0]) * (n - 1) / (X[-1] - X[0]) (unrecognised form)")
+    raise AnalysisError(f"interp_rows helper: bracket index `{lo}` is neither a clipped searchsorted(grid, t) - 1 nor floor(position) "
+                        f"(unrecognised form)")
 
 
 def _rows_iteration(fn: ast.FunctionDef):
